@@ -160,6 +160,18 @@ size_t AsyncSim::outstanding() const {
 	return n;
 }
 
+size_t AsyncSim::outstanding_slots() const {
+	size_t n = 0;
+	for (auto &r : recs) if (r->outstanding && !r->is_conf) n++;
+	return n;
+}
+
+size_t AsyncSim::conf_extra(const struct ::peek_client &pc) const {
+	if (!pc.has_server_conf) return 0;
+	for (auto &r : recs) if (r->outstanding && r->is_conf && r->h == pc.server_conf) return 0;
+	return 1;
+}
+
 bool AsyncSim::anything_in_flight() const { return outstanding() > 0; }
 
 void AsyncSim::note_fault(const char *kind) {
@@ -181,6 +193,18 @@ void AsyncSim::note_sent() {
 				return;
 			}
 	};
+	auto mark_conf = [&](uint64_t seq, uint64_t dseq, int64_t dms) {
+		for (int pass = 0; pass < 2; pass++)
+		for (auto &r : recs) for (auto &a : r->att) if (a.is_conf && a.sent_seq == 0 && (pass == 1 || !a.returned)) {
+			a.sent_seq = seq; a.sent_ms = K.now_ms;
+			if (a.disp_seq == 0) { a.disp_seq = dseq ? dseq : seq; a.disp_ms = dseq ? dms : K.now_ms; }
+			return;
+		}
+	};
+	auto mark_conf_disp = [&](uint64_t dseq, int64_t dms) {
+		for (int pass = 0; pass < 2; pass++)
+		for (auto &r : recs) for (auto &a : r->att) if (a.is_conf && a.disp_seq == 0 && a.accepted_seq <= dseq && (pass == 1 || !a.returned)) { a.disp_seq = dseq; a.disp_ms = dms; return; }
+	};
 	auto mark_disp = [&](uint64_t id, uint64_t dseq, int64_t dms) {
 		for (auto &r : recs) for (auto &a : r->att) if (a.id == id && a.disp_seq == 0 && a.accepted_seq <= dseq) { a.disp_seq = dseq; a.disp_ms = dms; return; }
 	};
@@ -195,6 +219,7 @@ void AsyncSim::note_sent() {
 				ReqInfo ri;
 				std::string pdu = c.c2s.substr(off, fl);
 				if (parse_request(pdu, e.cfg.key, ri) && ri.has_id) mark(ri.id, c.seq_when_sent(off + fl), 0, 0);
+				else if (ri.has_conf_req && !ri.has_req) mark_conf(c.seq_when_sent(off + fl), 0, 0);
 				off += fl;
 			}
 		}
@@ -206,6 +231,7 @@ void AsyncSim::note_sent() {
 			e.conn_req_parsed[-1000000 - x.idx] = 1;
 			ReqInfo ri;
 			if (parse_request(x.body_at_add, e.cfg.key, ri) && ri.has_id) mark_disp(ri.id, x.added_seq, x.added_ms);
+			else if (ri.has_conf_req && !ri.has_req) mark_conf_disp(x.added_seq, x.added_ms);
 		}
 		for (auto &xp : C.xfers) {
 			Xfer &x = *xp;
@@ -214,6 +240,7 @@ void AsyncSim::note_sent() {
 			e.conn_req_parsed[-1 - x.idx] = 1;
 			ReqInfo ri;
 			if (parse_request(x.req_body, e.cfg.key, ri) && ri.has_id) mark(ri.id, x.sent_seq, x.added_seq, x.added_ms);
+			else if (ri.has_conf_req && !ri.has_req) mark_conf(x.sent_seq, x.added_seq, x.added_ms);
 		}
 	}
 }
@@ -313,6 +340,26 @@ void AsyncSim::op_add(const run::Op &op) {
 	rec->idx = (int)recs.size();
 	KSI_AsyncHandle *h = nullptr;
 	int res;
+	// a configuration request: no hash / times; the service answers it with its configuration (plain service only, DESIGN.md 10.5)
+	if (!ha && plan.c("conf_req", 0) && op.arg(1) % 6 == 5) {
+		rec->is_conf = true;
+		KSI_Config *cfg = nullptr;
+		KSI_Config_new(ctx, &cfg);
+		if (!svc_ext) {
+			KSI_AggregationReq *rq = nullptr;
+			KSI_AggregationReq_new(ctx, &rq);
+			KSI_AggregationReq_setConfig(rq, cfg);
+			res = KSI_AsyncAggregationHandle_new(ctx, rq, &h);
+			if (res != KSI_OK) { KSI_AggregationReq_free(rq); K.inconclusive = true; K.inconclusive_why = "handle_new failed"; return; }
+		} else {
+			KSI_ExtendReq *rq = nullptr;
+			KSI_ExtendReq_new(ctx, &rq);
+			KSI_ExtendReq_setConfig(rq, cfg);
+			res = KSI_AsyncExtendHandle_new(ctx, rq, &h);
+			if (res != KSI_OK) { KSI_ExtendReq_free(rq); K.inconclusive = true; K.inconclusive_why = "handle_new failed"; return; }
+		}
+		K.count("probe.conf_request");
+	} else
 	if (!svc_ext) {
 		int alg = op.arg(1) % 7 == 3 ? 5 : 1;
 		rec->hash = imprint(alg, "doc-" + std::to_string(plan.seed) + "-" + std::to_string(hash_counter++));
@@ -339,26 +386,41 @@ void AsyncSim::op_add(const run::Op &op) {
 	}
 	rec->h = h;
 	if (ha) ha_before_add(*rec);
-	size_t before = outstanding();
+	// occupancy as the property counts it: requests accepted and not yet handed back, plus a pushed configuration waiting to be
+	// collected; a configuration request is counted (it is outstanding) but needs no cache slot itself
 	struct peek_client pc; memset(&pc, 0, sizeof pc);
 	bool havepc = !ha && peek_client(svc, &pc);
+	size_t before = outstanding() + (havepc ? conf_extra(pc) : 0);
+	// an earlier configuration request still outstanding is superseded by a new one (the service keeps one configuration slot)
+	HRec *superseded = nullptr;
+	if (rec->is_conf) for (auto &r : recs) if (r->outstanding && r->is_conf) superseded = r.get();
 	K.api_begin("add");
 	res = KSI_AsyncService_addRequest(svc, h);
-	K.ev("ADD #%d -> 0x%x", rec->idx, res);
+	K.ev("ADD #%d%s -> 0x%x", rec->idx, rec->is_conf ? " (configuration request)" : "", res);
 	if (res == KSI_OK) {
 		Attempt a;
 		KSI_AsyncHandle_getRequestId(h, &a.id);
+		a.is_conf = rec->is_conf;
 		a.accepted_seq = K.seq; a.accepted_ms = K.now_ms;
 		rec->att.push_back(a);
 		rec->outstanding = true;
-		if (!ha && before + (havepc ? pc.has_server_conf : 0) >= cache)
-			K.fail("C13", "cache-full-not-refused", "add", "request accepted with %zu outstanding (+%d config handle) and cache size %zu", before, havepc ? pc.has_server_conf : 0, cache);
+		if (!ha && !rec->is_conf && before >= cache)
+			K.fail("C13", "cache-full-not-refused", "add", "request accepted with %zu outstanding (incl. configuration handles) and cache size %zu", before, cache);
+		if (superseded) {
+			// the service keeps one configuration slot: the earlier request is dropped from it and will never be handed back
+			K.count("probe.conf_request_superseded");
+			K.ev("configuration request #%d superseded by #%d", superseded->idx, rec->idx);
+			superseded->outstanding = false;
+			superseded->h = nullptr; // the service has released it
+			if (!superseded->att.empty()) superseded->att.back().returned = true; // (never, in fact: it no longer takes part in the matching of wire requests)
+			superseded_conf.push_back(superseded);
+		}
 		recs.push_back(std::move(rec));
 	} else {
 		if (res == KSI_ASYNC_REQUEST_CACHE_FULL) {
 			K.count("probe.cache_full");
-			if (!ha && before + (havepc ? pc.has_server_conf : 0) != cache)
-				K.fail("C13", "cache-full-wrongly-refused", "add", "CACHE_FULL with %zu outstanding (+%d config handle), cache size %zu", before, havepc ? pc.has_server_conf : 0, cache);
+			if (!ha && (rec->is_conf || before < cache))
+				K.fail("C13", "cache-full-wrongly-refused", "add", "CACHE_FULL with %zu outstanding (incl. configuration handles), cache size %zu%s", before, cache, rec->is_conf ? " for a configuration request" : "");
 		} else if (!ha) {
 			K.fail("C13", "add-unexpected-error", sdk::err_name(res), "addRequest returned 0x%x", res);
 		}
@@ -377,23 +439,33 @@ void AsyncSim::op_readd(const run::Op &op) {
 	HRec &r = *cand[(size_t)op.arg(0) % cand.size()];
 	if (r.hold_state == KSI_ASYNC_STATE_RESPONSE_RECEIVED) K.count("probe.readd_after_response");
 	if (ha) ha_before_add(r);
-	size_t before = outstanding();
 	struct peek_client pc; memset(&pc, 0, sizeof pc);
 	bool havepc = !ha && peek_client(svc, &pc);
+	size_t before = outstanding() + (havepc ? conf_extra(pc) : 0);
+	HRec *superseded = nullptr;
+	if (r.is_conf) for (auto &o : recs) if (o->outstanding && o->is_conf) superseded = o.get();
 	K.api_begin("add");
 	int res = KSI_AsyncService_addRequest(svc, r.h);
+	if (res == KSI_OK && superseded) {
+		K.count("probe.conf_request_superseded");
+		K.ev("configuration request #%d superseded by #%d", superseded->idx, r.idx);
+		superseded->outstanding = false; superseded->h = nullptr;
+		if (!superseded->att.empty()) superseded->att.back().returned = true;
+		superseded_conf.push_back(superseded);
+	}
 	K.ev("READD #%d -> 0x%x", r.idx, res);
 	K.count("probe.readd");
 	if (res == KSI_OK) {
 		Attempt a;
 		KSI_AsyncHandle_getRequestId(r.h, &a.id);
 		a.accepted_seq = K.seq; a.accepted_ms = K.now_ms;
+		a.is_conf = r.is_conf;
 		r.att.push_back(a);
 		r.outstanding = true; r.held = false;
-		if (!ha && before + (havepc ? pc.has_server_conf : 0) >= cache)
+		if (!ha && !r.is_conf && before >= cache)
 			K.fail("C13", "cache-full-not-refused", "readd", "request accepted with %zu outstanding and cache size %zu", before, cache);
 	} else if (res == KSI_ASYNC_REQUEST_CACHE_FULL) {
-		if (!ha && before + (havepc ? pc.has_server_conf : 0) != cache)
+		if (!ha && before < cache)
 			K.fail("C13", "cache-full-wrongly-refused", "readd", "CACHE_FULL with %zu outstanding, cache size %zu", before, cache);
 	} else if (!ha) {
 		K.fail("C13", "add-unexpected-error", sdk::err_name(res), "re-adding returned 0x%x", res);
@@ -431,7 +503,7 @@ void AsyncSim::op_run() {
 	if (h) { if (ha) ha_on_returned(h, waiting); else on_returned(h, waiting); }
 	else if (!ha) {
 		struct peek_client pc;
-		if (peek_client(svc, &pc) && waiting != outstanding() + (size_t)pc.has_server_conf)
+		if (peek_client(svc, &pc) && waiting != outstanding() + conf_extra(pc))
 			K.fail("C13", "waiting-count", "run", "run reports %zu waiting, model has %zu outstanding (+%d config)", waiting, outstanding(), pc.has_server_conf);
 	}
 	after_api("run");
@@ -455,8 +527,11 @@ void AsyncSim::monitor_counts(const char *where) {
 	if (!peek_client(svc, &pc)) return;
 	if (pc.pending + pc.received != pc.occupied + (size_t)pc.has_server_conf)
 		K.fail("C13", "counter-identity", where, "pending %zu + received %zu != occupied cache slots %zu + config %d", pc.pending, pc.received, pc.occupied, pc.has_server_conf);
-	if (p + r != outstanding() + (size_t)pc.has_server_conf)
-		K.fail("C13", "pending-count", where, "getPendingCount %zu + getReceivedCount %zu != accepted-not-returned %zu (+%d config handle)", p, r, outstanding(), pc.has_server_conf);
+	if (p + r != outstanding() + conf_extra(pc))
+		K.fail("C13", "pending-count", where, "getPendingCount %zu + getReceivedCount %zu != accepted-not-returned %zu (+%zu pushed configuration handle)", p, r, outstanding(), conf_extra(pc));
+	// each of the two counts alone is bounded by the number of requests it can refer to
+	if (p > outstanding() + conf_extra(pc) || r > outstanding() + conf_extra(pc))
+		K.fail("C13", "pending-count", where, "getPendingCount %zu / getReceivedCount %zu with %zu accepted-not-returned request(s)", p, r, outstanding() + conf_extra(pc));
 }
 
 void AsyncSim::op_deliver(const run::Op &op) {
@@ -508,6 +583,18 @@ void AsyncSim::send_reply(SimEndpoint &e, SrvReq &rq, int behav, uint64_t subsee
 	emit(e, rq.conn, rq.xfer, bytes);
 }
 
+void AsyncSim::send_conf_reply(SimEndpoint &e, SrvReq &rq, int sb, uint64_t s2) {
+	ConfVals cv;
+	if (!svc_ext) { cv.max_level = 1 + s2 % 20; cv.aggr_period = 100 + s2 % 5000; cv.max_requests = 1 + s2 % 1000; }
+	else { cv.max_requests = 1 + s2 % 1000; cv.cal_first = 1400000000 + s2 % 1000; cv.cal_last = world.head(); }
+	std::string bytes = sb == B_ERROR_PDU ? world.error_pdu(e.cfg, 0x0101, "ref error pdu") : world.seal(e.cfg, true, {conf_tlv(0x04, cv, e.cfg.extender)}, sb, s2);
+	reply_label[bytes] = sb == B_HONEST ? B_CONF_ONLY : sb;
+	rq.last_reply = bytes; rq.answered = true;
+	K.ev("srv ep%d configuration reply behav=%s bytes=%zu", rq.ep, behav_name(sb), bytes.size());
+	K.count("reply.configuration");
+	emit(e, rq.conn, rq.xfer, bytes);
+}
+
 void AsyncSim::op_reply(const run::Op &op) {
 	// pick an endpoint with pending requests
 	std::vector<std::pair<int, int>> cand;
@@ -520,6 +607,16 @@ void AsyncSim::op_reply(const run::Op &op) {
 	int behav = (int)(op.arg(1) % B__COUNT);
 	if (plan.c("adv", 0) == 0 || e.honest_only) behav = B_HONEST;
 	if (e.cfg.pdu_ver == 1 && (behav == B_CONF_ONLY || behav == B_WITH_CONF)) behav = B_HONEST;
+	if (rq.info.has_conf_req && !rq.info.has_req) {
+		// a configuration request: the reply is a configuration PDU (sealed with the behaviour's MAC / framing deviation, if any)
+		static const int seal_only[] = {B_HONEST, B_HONEST, B_HONEST, B_BAD_MAC, B_OTHER_KEY, B_OTHER_ALG, B_NO_MAC, B_ERROR_PDU};
+		int sb = (plan.c("adv", 0) == 0 || e.honest_only) ? B_HONEST : seal_only[(size_t)op.arg(1) % 8];
+		if (sb != B_HONEST) note_fault("adversarial_reply");
+		send_conf_reply(e, rq, sb, (uint64_t)op.arg(2));
+		e.answered.push_back(rq);
+		if (e.answered.size() > 64) e.answered.erase(e.answered.begin());
+		return;
+	}
 	if (!rq.info.has_id) behav = B_ERROR_PDU;
 	if (ha && (behav == B_CONF_ONLY || behav == B_WITH_CONF)) {
 		// C15 compares the consolidated configuration with a fold over one configuration per endpoint (DESIGN.md 6, C15)
@@ -553,7 +650,7 @@ void AsyncSim::op_premature(const run::Op &op) {
 	if (ha || plan.c("adv", 0) == 0 || eps[0].http || eps[0].honest_only) return;
 	note_sent();
 	std::vector<std::pair<HRec *, Attempt *>> cand;
-	for (auto &r : recs) if (r->outstanding && !r->att.empty() && r->att.back().sent_seq == 0) cand.push_back({r.get(), &r->att.back()});
+	for (auto &r : recs) if (r->outstanding && !r->is_conf && !r->att.empty() && r->att.back().sent_seq == 0) cand.push_back({r.get(), &r->att.back()});
 	if (cand.empty()) return;
 	Conn *c = N.live_conn_of(eps[0].net_ep);
 	if (!c || c->st != Conn::ESTABLISHED) return;
@@ -816,12 +913,14 @@ void AsyncSim::on_returned(KSI_AsyncHandle *h, size_t waiting) {
 	rec->outstanding = false; rec->held = true; rec->hold_state = state;
 	K.count(state == KSI_ASYNC_STATE_RESPONSE_RECEIVED ? "outcome.response" : "outcome.error");
 	if (K.failed()) return; // the outgoing stream is already broken: later symptoms are consequences
-	if (state == KSI_ASYNC_STATE_RESPONSE_RECEIVED) check_response(*rec, a);
+	if (rec->is_conf && state == KSI_ASYNC_STATE_PUSH_CONFIG_RECEIVED) check_conf_completion(*rec, a);
+	else if (rec->is_conf && state == KSI_ASYNC_STATE_ERROR) { std::string why; if (a.err == KSI_OK) K.fail("C13", "error-state-without-code", "run", "configuration request #%d in ERROR state with error code 0", rec->idx); else if (!cause_exists(a, a.err, why)) { char key[64]; snprintf(key, sizeof key, "err-0x%x", a.err); K.fail("C13", "error-without-cause", key, "configuration request #%d failed with 0x%x (%s) but: %s", rec->idx, a.err, sdk::err_name(a.err), why.c_str()); } }
+	else if (state == KSI_ASYNC_STATE_RESPONSE_RECEIVED && !rec->is_conf) check_response(*rec, a);
 	else if (state == KSI_ASYNC_STATE_ERROR) check_error(*rec, a);
 	else K.fail("C13", "non-final-state", "run", "handle #%d returned in state %d", rec->idx, state);
 	struct peek_client pc;
-	if (peek_client(svc, &pc) && waiting != outstanding() + (size_t)pc.has_server_conf)
-		K.fail("C13", "waiting-count", "run", "run reports %zu waiting, model has %zu outstanding (+%d config)", waiting, outstanding(), pc.has_server_conf);
+	if (peek_client(svc, &pc) && waiting != outstanding() + conf_extra(pc))
+		K.fail("C13", "waiting-count", "run", "run reports %zu waiting, model has %zu outstanding (+%zu pushed configuration)", waiting, outstanding(), conf_extra(pc));
 }
 
 void AsyncSim::check_response(HRec &r, Attempt &a) {
@@ -1035,6 +1134,25 @@ bool AsyncSim::connwide_cause(const Attempt &a) {
 	return have >= 1 && have >= failing_runs.size();
 }
 
+// a configuration request is completed by an authentic configuration PDU that the client can have processed after accepting it
+void AsyncSim::check_conf_completion(HRec &r, Attempt &a) {
+	KSI_Config *cfg = nullptr;
+	KSI_AsyncHandle_getConfig(r.h, &cfg);
+	K.count("outcome.configuration");
+	if (!cfg) { K.fail("C13", "config-handle-empty", "request", "configuration request #%d completed without a configuration", r.idx); return; }
+	ConfVals cv = read_config(cfg);
+	(void)a;
+	// a configuration carries no request identity: any authentic configuration PDU of this connection history may complete the
+	// request (also one that was already queued in the client when the request was (re-)added)
+	bool any = false, same = false;
+	for (auto &f : frames) if (!f.bad && f.info.has_conf && f.arrive_seq && f.arrive_seq <= K.seq) {
+		any = true;
+		if (conf_eq(f.info.conf, cv)) same = true;
+	}
+	if (!any) K.fail("C13", "response-without-valid-reply", "configuration", "configuration request #%d completed, but no authentic configuration PDU has arrived at all", r.idx);
+	else if (!same) K.fail("C06", "config-without-authentic-pdu", "request", "configuration request #%d completed with values that no authentic configuration PDU carried", r.idx);
+}
+
 void AsyncSim::check_error(HRec &r, Attempt &a) {
 	std::string why;
 	// "an error and no signature": a handle handed back in the error state carries no response content (also not a stale one
@@ -1067,7 +1185,7 @@ void AsyncSim::check_outgoing(bool final) {
 		auto check_pdu = [&](const std::string &pdu, const char *where, int idx, bool partial_sends) {
 			ReqInfo ri;
 			parse_request(pdu, e.cfg.key, ri);
-			bool structure = ri.framed && ri.ver != 0 && ri.has_header && ri.header_first && ri.has_mac && ri.mac_last && ri.has_req;
+			bool structure = ri.framed && ri.ver != 0 && ri.has_header && ri.header_first && ri.has_mac && ri.mac_last && (ri.has_req || ri.has_conf_req);
 			if (!ri.framed || ri.ver == 0 || (!structure && partial_sends)) { K.fail("C14", "outgoing-stream-not-pdu-aligned", where, "ep%zu %s%d: bytes on the wire are not a request PDU: %s", ei, where, idx, hexs(pdu.data(), pdu.size(), 24).c_str()); return false; }
 			if (ri.ver != e.cfg.pdu_ver) K.fail("C06", "request-wrong-version", where, "request framed as version %d, configured %d", ri.ver, e.cfg.pdu_ver);
 			if (!ri.has_header || !ri.has_mac) K.fail("C06", "request-without-header-or-mac", where, "request lacks header or MAC");
@@ -1157,7 +1275,8 @@ void AsyncSim::quiesce() {
 			while (!eps[i].pending.empty()) {
 				SrvReq rq = eps[i].pending.front();
 				eps[i].pending.erase(eps[i].pending.begin());
-				send_reply(eps[i], rq, rq.info.has_id ? B_HONEST : B_ERROR_PDU, 7 + K.seq);
+				if (rq.info.has_conf_req && !rq.info.has_req) send_conf_reply(eps[i], rq, B_HONEST, 7 + K.seq);
+				else send_reply(eps[i], rq, rq.info.has_id ? B_HONEST : B_ERROR_PDU, 7 + K.seq);
 			}
 		}
 		for (auto s : streams_with_inflight()) {
@@ -1190,6 +1309,8 @@ void AsyncSim::quiesce() {
 		K.fail("C13", "request-lost", "quiesce", "%zu accepted request(s) not returned within %d drain rounds after faults stopped: %s", outstanding(), B, st.c_str());
 		return;
 	}
+	// requests of superseded configuration requests are still in the client's send queue (one per round at most): let them go first
+	for (size_t k = 0; k < 2 * superseded_conf.size() && !K.failed(); k++) drain_round();
 	// a request added during quiescence completes with a response
 	bool any_silent = false;
 	for (auto &e : eps) if (e.silent) any_silent = true;
@@ -1235,6 +1356,10 @@ run::RunResult AsyncSim::run(bool trace) {
 		}
 		if (!K.failed() && !K.inconclusive && plan.c("quiesce", 1)) quiesce();
 		if (!K.failed() && !K.inconclusive) { note_sent(); refresh_frames(); check_outgoing(true); if (ha) ha_final_checks(); }
+		// reported last, so that every other oracle has judged the run first: an accepted configuration request that a later one
+		// pushed out of the service's single configuration slot is never handed back
+		if (!K.failed() && !K.inconclusive && !superseded_conf.empty())
+			K.fail("C13", "request-lost", "superseded-configuration-request", "configuration request #%d was accepted but never handed back: a later configuration request replaced it in the service's configuration slot", superseded_conf[0]->idx);
 	}
 	teardown();
 	rr.hash = K.hash;
